@@ -113,7 +113,9 @@ def _statkeys(ck: Checker) -> None:
     fields = [s_.target.id for s_ in meta.node.body if isinstance(s_, ast.AnnAssign) and isinstance(s_.target, ast.Name) and "ClassVar" not in norm(s_.annotation)]
     from .tree_common import resolve_const
 
-    for r in [x for x in walk_own(fi.node) if isinstance(x, ast.Return) and isinstance(x.value, ast.Call) and call_name(x.value) == "Meta"]:
+    ctor_rets = [x for x in walk_own(fi.node) if isinstance(x, ast.Return) and isinstance(x.value, ast.Call) and call_name(x.value) in ("Meta", "cls")]
+    ck.floor("C13.statkeys", len(ctor_rets), 1, "Meta(...) constructions returned by Meta.from_info")
+    for r in ctor_rets:
         bound = {}
         for i, a in enumerate(r.value.args):
             if i < len(fields):
